@@ -40,3 +40,55 @@ def run(repo, cache, seed, n=40):
 if __name__ == '__main__':
     import json, sys
     print(json.dumps(run(sys.argv[1] if len(sys.argv) > 1 else '/repo', os.path.join(ROOT, '.cache'), 1), indent=1))
+
+
+def expected_big():
+    """What the property texts say harness/big_probe must print (C15: ids by the discriminant rule up to 255; C17: the
+    world-level iterators yield the union over archetypes in archetype order with an exact size_hint; C01: lookups)."""
+    L = ['ids 0 1 254 255', 'anyid 0 128 255', 'contains true true true', 'iter_sum 10']
+    created = [0, 128, 255, 255]
+    for i, a in enumerate(created):
+        L.append('created item %d hint %d Some(%d) id %d' % (i, len(created) - i, len(created) - i, a))
+    L += ['created end after 4 hint 0 Some(0)', 'created again_none true']
+    destroyed = [0, 255]
+    for i, a in enumerate(destroyed):
+        L.append('destroyed item %d hint %d Some(%d) id %d' % (i, len(destroyed) - i, len(destroyed) - i, a))
+    L += ['destroyed end after 2 hint 0 Some(0)', 'destroyed again_none true']
+    for n in ('created_after_clear', 'destroyed_after_clear'):
+        L += ['%s end after 0 hint 0 Some(0)' % n, '%s again_none true' % n]
+    L.append('len255 1 find Some(4)')
+    return L
+
+
+def run_big(repo, cache):
+    """The 256-archetype world (events feature), debug and release builds."""
+    out = dict(error=None, failures=[], builds=0)
+    probe = os.path.join(ROOT, 'harness', 'big_probe')
+    toml = os.path.join(probe, 'Cargo.toml')
+    t = open(toml).read()
+    t2 = re.sub(r'gecs = \{ path = "[^"]*"', 'gecs = { path = "%s"' % repo, t)
+    if t2 != t:
+        open(toml, 'w').write(t2)
+    if not os.path.exists(os.path.join(probe, 'Cargo.lock')):
+        subprocess.run(['cp', os.path.join(repo, 'Cargo.lock'), os.path.join(probe, 'Cargo.lock')])
+    tdir = os.path.join(cache, 'target-big')
+    want = expected_big()
+    for profile, sub in (('', 'debug'), ('--release', 'release')):
+        r = subprocess.run('cargo build --offline %s --target-dir %s' % (profile, tdir), shell=True, cwd=probe, capture_output=True, text=True,
+                           env=dict(os.environ, CARGO_NET_OFFLINE='true'))
+        if r.returncode != 0:
+            errs = [l for l in r.stderr.split('\n') if l.startswith('error')][:3]
+            if any('could not compile `gecs`' in e for e in errs) or not errs:
+                out['error'] = r.stderr[-1200:]
+                return out
+            out['failures'].append('[%s build] the 256-archetype world does not compile: %s' % (sub, ' | '.join(errs)))
+            continue
+        p = subprocess.run([os.path.join(tdir, sub, 'big_probe')], capture_output=True, text=True, timeout=600)
+        out['builds'] += 1
+        got = [l for l in p.stdout.split('\n') if l]
+        if p.returncode != 0 or got != want:
+            first = next((i for i, (a, b) in enumerate(zip(got, want)) if a != b), min(len(got), len(want)))
+            out['failures'].append('[%s build] 256-archetype world: exit %d, output line %d is %r, expected %r%s'
+                                   % (sub, p.returncode, first, got[first] if first < len(got) else None, want[first] if first < len(want) else None,
+                                      (' (' + p.stderr.strip().split('\n')[-1][:200] + ')') if p.returncode != 0 and p.stderr.strip() else ''))
+    return out
